@@ -68,11 +68,46 @@ Qed.
 
 Lemma ret_no_invoke r i : count_invokes i [ORet r] = 0. Proof. reflexivity. Qed.
 
-Theorem step_alive fc fb tid_of c o i : tinv c -> i < c_next_inst c ->
+(* callbacks never change which instance an ID belongs to: entries are removed, or re-registered as they were *)
+Definition pairs_ok (T : list txn) (id n : N) : Prop := forall x, In x T -> t_id x = id -> t_inst x = n.
+Lemma callback_pairs fc fb c id k rid n : pairs_ok (c_T c) rid n -> pairs_ok (c_T (fst (callback fc fb c id k))) rid n.
+Proof.
+  intros P. pose proof (callback_cases fc fb c id k) as Hc.
+  destruct (callback fc fb c id k) as [c' ob]. cbn [fst]. destruct Hc as [_ Hc].
+  destruct Hc as [(HT & _)|[(t & r & Hf & HT & _)|(t & Hf & _ & _ & _ & HT & _)]]; rewrite HT.
+  - exact P.
+  - intros x Hx. apply In_remove in Hx as [Hx _]. apply P, Hx.
+  - intros x Hx E. apply in_app_or in Hx as [Hx|[<-|[]]].
+    + apply In_remove in Hx as [Hx _]. apply (P x Hx E).
+    + cbn [bump t_id t_inst] in *. apply (P t (T_find_in _ _ _ Hf) E).
+Qed.
+Lemma feed_pairs fc fb k rid n evs : forall c, pairs_ok (c_T c) rid n -> pairs_ok (c_T (fst (feed fc fb c evs k))) rid n.
+Proof.
+  induction evs as [|e evs IH]; intros c P; cbn [feed]; [exact P|].
+  pose proof (callback_pairs fc fb c (ev_id e) (k (ev_kind e)) rid n P) as P1.
+  destruct (callback fc fb c (ev_id e) (k (ev_kind e))) as [c1 o1]. cbn [fst] in P1.
+  specialize (IH c1 P1). destruct (feed fc fb c1 evs k) as [c2 o2]. exact IH.
+Qed.
+Lemma close_core_pairs fc fb c1 rid n : pairs_ok (c_T c1) rid n -> pairs_ok (c_T (fst (c_close_core fc fb c1))) rid n.
+Proof.
+  intros P. unfold c_close_core. destruct (a_step (c_A c1) AClose) as [A' [r evs]].
+  pose proof (feed_pairs fc fb (kind_evk []) rid n evs (upd_A c1 (c_A c1)) P) as P2.
+  destruct (feed _ _ _ _ _) as [c2 o]. cbn [fst] in P2. destruct (c_closeConn _); exact P2.
+Qed.
+Lemma lives_remove_other T rid n i : pairs_ok T rid n -> i <> n -> lives (T_remove rid T) i = lives T i.
+Proof.
+  intros P Hne. destruct (lives T i) eqn:E.
+  - apply lives_iff in E as (x & Hx & Hi). apply lives_iff. exists x. split; [|exact Hi].
+    apply In_remove. split; [exact Hx|]. intros Eid. apply Hne. rewrite <- Hi. apply (P x Hx Eid).
+  - destruct (lives (T_remove rid T) i) eqn:E2; [|reflexivity]. apply lives_iff in E2 as (x & Hx & Hi).
+    apply In_remove in Hx as [Hx _]. assert (lives T i = true) by (apply lives_iff; exists x; auto). congruence.
+Qed.
+
+Lemma step_alive_base fc fb tid_of c o i : not_race o -> tinv c -> i < c_next_inst c ->
   let '(c', ob) := c_step fc fb tid_of c o in count_invokes i ob + alive c' i = alive c i.
 Proof.
-  intros Hinv Hi. pose proof Hinv as (Hid & Hin & Hall).
-  destruct o as [id raw h|raw|d|now|now|r|s| |now|d|fid|sid]; cbn [c_step].
+  intros Hnr Hinv Hi. pose proof Hinv as (Hid & Hin & Hall).
+  destruct o as [id raw h|raw|d|now|now|r|s| |now|d|fid|sid|rid rraw rh]; cbn [c_step]; [| | | | | | | | | | | |destruct Hnr].
   - (* Start: the instance it allocates is c_next_inst c, not i *)
     unfold c_start, c_start_gen. destruct (c_closed c); [rewrite ret_no_invoke; lia|].
     set (t := mkTxn (c_next_inst c) id 0 0 h (c_rto c) raw).
@@ -168,9 +203,10 @@ Proof.
   destruct (feed _ _ _ _ _) as [c2 o]. cbn [fst] in HF. apply next_of_frame in HF. cbn [c_next_inst upd_A] in HF.
   destruct (c_closeConn _); cbn [fst c_next_inst upd_A]; exact HF.
 Qed.
-Lemma step_next_mono fc fb tid_of c o : c_next_inst c <= c_next_inst (fst (c_step fc fb tid_of c o)).
+Lemma step_next_mono_base fc fb tid_of c o : not_race o -> c_next_inst c <= c_next_inst (fst (c_step fc fb tid_of c o)).
 Proof.
-  destruct o as [id raw h|raw|d|now|now|r|s| |now|d|fid|sid]; cbn [c_step].
+  intros Hnr.
+  destruct o as [id raw h|raw|d|now|now|r|s| |now|d|fid|sid|rid rraw rh]; cbn [c_step]; [| | | | | | | | | | | |destruct Hnr].
   - unfold c_start, c_start_gen. destruct (c_closed c); [cbn [fst]; lia|].
     set (c0 := mkClient _ _ _ _ _ _ _ _ _ _ (c_next_inst c + 1)).
     destruct (T_find id (c_T c0)); [cbn [fst c_next_inst c0]; lia|].
@@ -222,6 +258,65 @@ Proof.
   - unfold c_app_stop. destruct (a_step _ _) as [A' [r evs]].
     pose proof (feed_frame fc fb evs (kind_evk []) (upd_A c A')) as HF.
     destruct (feed _ _ _ _ _) as [c2 ob]. cbn [fst] in *. apply next_of_frame in HF. cbn [c_next_inst upd_A] in HF. lia.
+Qed.
+
+Lemma step_next_mono fc fb tid_of c o : c_next_inst c <= c_next_inst (fst (c_step fc fb tid_of c o)).
+Proof.
+  destruct o as [id raw h|raw|d|now|now|r|s| |now|d|fid|sid|rid rraw rh];
+    try (apply step_next_mono_base; exact I).
+  cbn [c_step]. unfold c_start_race.
+  destruct (c_closed c || match T_find rid (c_T c) with Some _ => true | None => false end).
+  - pose proof (step_next_mono_base fc fb tid_of c (CStart rid rraw rh) I) as H1. cbn [c_step] in H1.
+    destruct (c_start c rid rraw (Some rh)) as [c1 o1]. cbn [fst] in H1.
+    pose proof (step_next_mono_base fc fb tid_of c1 CClose I) as H2. cbn [c_step] in H2.
+    destruct (c_close fc fb c1) as [c2 o2]. cbn [fst] in *. lia.
+  - set (t := mkTxn (c_next_inst c) rid 0 0 rh (c_rto c) rraw).
+    set (c0 := mkClient _ _ _ _ _ _ _ _ _ _ (c_next_inst c + 1)).
+    set (c1 := upd_T c0 (c_T c0 ++ [t])).
+    pose proof (close_core_next fc fb (set_closed c1)) as H.
+    destruct (c_close_core fc fb (set_closed c1)) as [c2 o2]. cbn [fst] in H.
+    destruct (a_step (c_A c2) _) as [A' [r evs]]. cbn [fst c_next_inst upd_T upd_A].
+    rewrite H. cbn [c_next_inst set_closed upd_T c1 c0]. lia.
+Qed.
+
+Theorem step_alive fc fb tid_of c o i : tinv c -> i < c_next_inst c ->
+  let '(c', ob) := c_step fc fb tid_of c o in count_invokes i ob + alive c' i = alive c i.
+Proof.
+  intros Hinv Hi.
+  destruct o as [id raw h|raw|d|now|now|r|s| |now|d|fid|sid|rid rraw rh];
+    try (apply step_alive_base; [exact I | exact Hinv | exact Hi]).
+  cbn [c_step]. unfold c_start_race.
+  destruct (c_closed c || match T_find rid (c_T c) with Some _ => true | None => false end) eqn:E.
+  - pose proof (step_alive_base fc fb tid_of c (CStart rid rraw rh) i I Hinv Hi) as H1.
+    pose proof (step_budget_base fc fb tid_of c (CStart rid rraw rh) I Hinv) as B1.
+    pose proof (step_next_mono_base fc fb tid_of c (CStart rid rraw rh) I) as M1. cbn [c_step] in H1, B1, M1.
+    destruct (c_start c rid rraw (Some rh)) as [c1 o1]. cbn [fst] in M1. destruct B1 as (I1 & _ & _).
+    assert (Hi1 : i < c_next_inst c1) by lia.
+    pose proof (step_alive_base fc fb tid_of c1 CClose i I I1 Hi1) as H2. cbn [c_step] in H2.
+    destruct (c_close fc fb c1) as [c2 o2].
+    destruct (count_app i o1 o2) as [Ha _]. rewrite Ha. lia.
+  - apply orb_false_iff in E as [Ec Ef].
+    assert (Hfresh : ~ In rid (map t_id (c_T c))) by (apply T_find_none; destruct (T_find rid (c_T c)); [discriminate | reflexivity]).
+    set (t := mkTxn (c_next_inst c) rid 0 0 rh (c_rto c) rraw).
+    set (c0 := mkClient _ _ _ _ _ _ _ _ _ _ (c_next_inst c + 1)).
+    set (c1 := upd_T c0 (c_T c0 ++ [t])).
+    destruct (register_budget c c1 t eq_refl eq_refl eq_refl eq_refl eq_refl eq_refl Hfresh Hinv) as [I1 _].
+    destruct (budget_ext c1 (set_closed c1) eq_refl eq_refl eq_refl) as [Hi1 _].
+    assert (P1 : pairs_ok (c_T (set_closed c1)) rid (c_next_inst c)).
+    { intros x Hx Eid. cbn [set_closed c_T upd_T c1 c0] in Hx. apply in_app_or in Hx as [Hx|[<-|[]]]; [|reflexivity].
+      exfalso. apply Hfresh. rewrite <- Eid. apply in_map. exact Hx. }
+    pose proof (close_core_alive fc fb (set_closed c1) i (Hi1 I1)) as Hc.
+    pose proof (close_core_pairs fc fb (set_closed c1) rid (c_next_inst c) P1) as P2.
+    destruct (c_close_core fc fb (set_closed c1)) as [c2 o2]. cbn [fst] in P2.
+    destruct (a_step (c_A c2) _) as [A' [r evs]].
+    destruct (count_app i o2 ([ORet CNil] ++ [ORet (CAgentErr r)])) as [Ha _]. rewrite Ha.
+    destruct (count_app i [ORet CNil] [ORet (CAgentErr r)]) as [Ha2 _]. rewrite Ha2, !ret_no_invoke.
+    assert (E3 : alive (upd_T (upd_A c2 A') (T_remove rid (c_T c2))) i = alive c2 i).
+    { unfold alive. cbn [c_T upd_T upd_A]. rewrite (lives_remove_other (c_T c2) rid (c_next_inst c) i P2) by lia. reflexivity. }
+    assert (E1 : alive (set_closed c1) i = alive c i).
+    { unfold alive. cbn [set_closed c_T upd_T c1 c0]. rewrite lives_app. unfold lives at 2. cbn [existsb t_inst t].
+      destruct (N.eqb_spec (c_next_inst c) i); [lia|]. rewrite !orb_false_r. reflexivity. }
+    rewrite E3. lia.
 Qed.
 
 Theorem run_alive fc fb tid_of ops i : forall c, tinv c -> i < c_next_inst c ->
